@@ -782,6 +782,17 @@ func rdCrafted(rng *Rng) []rdCraft {
 			dapiDefRec(1, arch, 206, []dapiFD{fd(0, 1, 0x02), fd(1, 1, 0x02), fd(2, 1, 0x02)}, nil), rdData(1, []byte{keys[0]}, []byte{keys[1]}, []byte{keys[2]}),
 			dapiDefRec(2, arch, 20, []dapiFD{fd(3, 1, 0x02)}, []dapiFD{fd(keys[1], 2, keys[0])}), rdData(2, []byte{70}, []byte{1, 2}))})
 	}
+	// sizes that are not a multiple of the base type: in a message without profile entry (array inference: larger than one
+	// element AND a multiple of it), in a profile array field (the partial element is dropped), in a profile scalar field
+	// (first element only), every multi-byte base type
+	for _, bt := range []byte{0x83, 0x84, 0x85, 0x86, 0x88, 0x89, 0x8B, 0x8C, 0x8E, 0x8F, 0x90} {
+		bs := int(basetype.BaseType(bt).Size())
+		for _, sz := range []int{bs + 1, 2*bs + 1, 3*bs - 1, 2 * bs, 3 * bs} {
+			out = append(out, rdCraft{"odd-size-unknown", "std", cat(dapiDefRec(0, arch, 0xff00, []dapiFD{fd(1, byte(sz), bt), fd(2, 1, 0x02)}, nil), rdData(0, rng.Bytes(sz), []byte{1}))})
+			out = append(out, rdCraft{"odd-size-table", fmt.Sprintf("20.5.%02x.a;20.6.%02x.-;20.3.02.-", bt, bt),
+				cat(dapiDefRec(0, arch, 20, []dapiFD{fd(5, byte(sz), bt), fd(6, byte(sz), bt), fd(3, 1, 0x02)}, nil), rdData(0, rng.Bytes(sz), rng.Bytes(sz), []byte{70}))})
+		}
+	}
 	// a compressed-timestamp record whose definition also carries field 253; two fields 253
 	out = append(out, rdCraft{"timestamps", "std", cat(dapiDefRec(0, arch, 20, []dapiFD{fd(253, 4, 0x86), fd(3, 1, 0x02)}, nil),
 		rdData(0, []byte{0, 0xca, 0x9a, 0x3b}, []byte{70}), []byte{0x80 | 5}, []byte{1, 0xca, 0x9a, 0x3b}, []byte{71},
@@ -851,8 +862,14 @@ func genReDec(emit func(string), tier string, rng *Rng) {
 	// --- a. hand-built streams for the decoder's fallbacks
 	for _, c := range rdCrafted(rng) {
 		for _, hs := range []int{14, 12} {
+			if strings.HasPrefix(c.name, "odd-size") && hs == 12 {
+				continue
+			}
 			b := dapiSeq(hs, true, c.recs)
 			for rep := 0; rep < 2; rep++ {
+				if strings.HasPrefix(c.name, "odd-size") && rep == 1 {
+					continue
+				}
 				o := opts()
 				o.pv = 0x20
 				o.preserve = rep == 1
